@@ -2,8 +2,11 @@ package c05
 
 import (
 	"fmt"
+	"io"
+	"net"
 	"os"
 	"strings"
+	"syscall"
 	"testing"
 	"time"
 
@@ -24,6 +27,17 @@ type LossCase struct {
 	// message and redraws its prompt, so unread bytes holding a prompt sit in the queue when the
 	// loss is noticed.
 	Stale bool `json:"stale,omitempty"`
+	// ErrKind (kind err): which error value the transport reports
+	ErrKind string `json:"err_kind,omitempty"`
+}
+
+// lossErrors: read errors as real transports report them (bare and wrapped).
+var lossErrors = map[string]error{
+	"eio":            &os.PathError{Op: "read", Path: "/dev/ptmx", Err: syscall.EIO},
+	"reset":          &net.OpError{Op: "read", Net: "tcp", Err: os.NewSyscallError("read", syscall.ECONNRESET)},
+	"unexpected-eof": io.ErrUnexpectedEOF,
+	"closed-pipe":    io.ErrClosedPipe,
+	"timeout":        &net.OpError{Op: "read", Net: "tcp", Err: os.ErrDeadlineExceeded},
 }
 
 func genLoss(t *rapid.T) LossCase {
@@ -34,6 +48,7 @@ func genLoss(t *rapid.T) LossCase {
 	c.WriteNth = rapid.IntRange(0, 3).Draw(t, "writeNth")
 	c.After = rapid.IntRange(1, 2).Draw(t, "after")
 	c.Stale = rapid.Bool().Draw(t, "stale")
+	c.ErrKind = rapid.SampledFrom([]string{"", "", "eio", "reset", "unexpected-eof", "closed-pipe", "timeout"}).Draw(t, "errKind")
 
 	return c
 }
@@ -80,6 +95,7 @@ func runLoss(c LossCase) ev.Verdict {
 	kind := sim.FaultEOF
 	if c.Kind == "err" {
 		kind = sim.FaultErr
+		s.pipe.FaultError = lossErrors[c.ErrKind]
 	}
 
 	v := ev.Verdict{OK: true, Classes: []string{"op=" + c.Op, "kind=" + c.Kind}}
